@@ -40,7 +40,7 @@ var hcSkipTypes = map[string]bool{"Program": true}
 
 func hcSnap(prefix string, v interface{}, out hcFlat) hcFlat {
 	if out == nil {
-		out = hcFlat{}
+		out = make(hcFlat, 1024)
 	}
 	hcWalk(prefix, reflect.ValueOf(v), out)
 	return out
